@@ -55,25 +55,7 @@ func runC24(c *Ctx) {
 					// every reply handed to the caller (a return that may carry a nil error) has passed this update: a reply
 					// that skips it, e.g. an empty one, leaves the previous count to be acknowledged a second time
 					{
-						upd := st.Block()
-						seen := map[*ssa.BasicBlock]bool{}
-						var walk func(b *ssa.BasicBlock)
-						walk = func(b *ssa.BasicBlock) {
-							if seen[b] || b == upd {
-								return
-							}
-							seen[b] = true
-							for _, sb := range b.Succs {
-								walk(sb)
-							}
-						}
-						walk(fn.Blocks[0])
-						skipped := ""
-						for _, r := range successReturns(fn) {
-							if seen[r.Block()] {
-								skipped = c.pos(r.Pos())
-							}
-						}
+						skipped := c.successBypass(fn, map[*ssa.BasicBlock]bool{st.Block(): true})
 						c.Check(skipped == "", "ack-writer", fk+":every-reply", st.Pos(), "every successful return has recorded the size of the reply it hands out", "the return at "+skipped+" can succeed without ackCount having been set to the size of this reply: the count of an earlier reply is acknowledged again with the next request, for ids that are no longer outstanding")
 					}
 				default:
